@@ -95,16 +95,21 @@ CHECKS = {
         text="The claim compare-and-swap and the whole StartStageHandler run symbolically over SymDB (row version a symbolic integer, "
              "durable status solver-chosen): two claimants in every interleaving the writer lock allows never both succeed; another "
              "worker's complete handler (duplicate StartStage, upstream completion updating the join bookkeeping) nested between the "
-             "handler's read and its first write never plans the stage twice and never loses the start, for AND / first-of / quorum joins.",
-        note="Bounds: two workers, nesting granularity = one whole handler inside the other's read-to-write window (not arbitrary "
-             "statement interleavings); one join stage with two upstreams. SymDB replaces SQLite and is validated against sqlite3 on every run.",
+             "handler's read and its first write never plans the stage twice and never loses the start, for AND / first-of / quorum joins. "
+             "Engine level on the real SQLite file: worker A's handler of the j-th message stopped before its k-th SQL statement while "
+             "worker B handles another deliverable message completely (j, k, the two message picks symbolic) - every pair of handlers a run "
+             "offers; oracles: one start and one StartTask per arming, join condition, legal transitions, quiescence, reference outcome.",
+        note="Bounds: two workers, ONE pre-emption (a whole handler inside the other, at every statement boundary outside an open write "
+             "transaction); S2: one join stage with two upstreams; S1: diamond (quick), 10 more workloads (thorough). SymDB replaces SQLite in "
+             "the S2 lemmas and is validated against sqlite3 on every run.",
         design="3/C04",
     ),
     "C07": dict(
         text="store_stage (plain and transactional, with/without expected phase), upsert_task, store.transaction() and "
              "retry_on_concurrency_error executed symbolically over SymDB: durable and caller versions are symbolic integers, so the "
-             "verdict covers every pair of versions; two read-modify-write sequences in all four lock-permitted interleavings.",
-        note="Bounds: one stage, <=2 tasks, two writers, one retry round; SymDB instead of SQLite (validated differentially).",
+             "verdict covers every pair of versions; two read-modify-write sequences in all four operation interleavings and with writer B's "
+             "whole save before every statement of writer A's save (k symbolic).",
+        note="Bounds: one stage, <=2 tasks, two writers, one pre-emption, one retry round; SymDB instead of SQLite (validated differentially).",
         design="3/C07",
     ),
     "C08": dict(
